@@ -82,6 +82,6 @@ func installStringsStubs(t *StubTable) {
 		b := (*args[0].(*value)).(structure)
 		// struct { addr *Builder; buf []byte }
 		buf, _ := b[1].([]value)
-		return stringOf(buf)
+		return normStr(append(symString{}, buf...))
 	}
 }
